@@ -6,19 +6,7 @@ open Conv
 let cmds : (string, Sx.t list -> Sx.t) Hashtbl.t = Hashtbl.create 64
 let reg name f = Hashtbl.replace cmds name f
 
-(* ---- C13 ---- *)
-let get_fclass = function
-  | A "pinf" -> FPosInf | A "ninf" -> FNegInf | A "nan" -> FNaN
-  | L [A "fin"; p; s] -> FFin (get_bool p, get_str s)
-  | _ -> bad "fclass"
-let () =
-  reg "go" (fun a -> match a with [c] -> put_str (go_string (get_fclass c)) | _ -> bad "go");
-  reg "go_orig" (fun a -> match a with [c] -> put_str (go_string_orig (get_fclass c)) | _ -> bad "go_orig");
-  reg "denote" (fun a -> match a with
-    | [s] -> put_opt (put_pair put_bool (put_pair put_n put_z)) (denote_signed (get_str s))
-    | _ -> bad "denote")
-
-let () = Cmds.register reg
+let () = Allcmds.register reg
 
 let () =
   try
